@@ -97,7 +97,7 @@ Qed.
 
 (* ------------------------------------------------------------------ one aggregate over the rows of a group *)
 Lemma map_opt_col : forall c rows vs, map_opt (eval (ECol c)) rows = Some vs ->
-  map (fun r : row => nth_error r c) rows = map Some vs.
+  map (fun r : list value => nth_error r c) rows = map Some vs.
 Proof.
   induction rows as [|r t IH]; intros vs H; cbn [map_opt] in H.
   - injection H as <-; reflexivity.
